@@ -217,6 +217,14 @@ def compare(ctx, D, rational, out, idx, model_out, mode, rep):
     cov.traces += 1
 
 
+
+def prepare(ctx):
+    """Translator tie (see gen_tie.py): the source of this slice is re-translated to Lean on every run
+    (harness/artv/vtrans.py) and proved equal to the model the property theorems are about"""
+    from .gen_tie import gen_prepare, extra_theorems
+    from .. import vtrans
+    gen_prepare(ctx, extra_theorems("vtrans") + [], vtrans.COVERS)
+
 def run(ctx):
     cov = ctx.cov
     N = ctx.scale(2000, 12000)
